@@ -487,8 +487,9 @@ htp_status_t htp_connp_RES_BODY_IDENTITY_CL_KNOWN(htp_connp_t *connp) {
     }
     if (bytes_to_consume == 0) return HTP_DATA;    
 
-    // Consume the data.
-    htp_status_t rc = htp_tx_res_process_body_data_ex(connp->out_tx, connp->out_current_data + connp->out_current_read_offset, bytes_to_consume);
+    // Consume the data. For a stream gap the data pointer is NULL.
+    htp_status_t rc = htp_tx_res_process_body_data_ex(connp->out_tx,
+            (connp->out_current_data != NULL) ? connp->out_current_data + connp->out_current_read_offset : NULL, bytes_to_consume);
     if (rc != HTP_OK) return rc;
 
     // Adjust the counters.
@@ -523,7 +524,9 @@ htp_status_t htp_connp_RES_BODY_IDENTITY_STREAM_CLOSE(htp_connp_t *connp) {
     fprintf(stderr, "bytes_to_consume %"PRIuMAX, (uintmax_t)bytes_to_consume);
     #endif
     if (bytes_to_consume != 0) {
-        htp_status_t rc = htp_tx_res_process_body_data_ex(connp->out_tx, connp->out_current_data + connp->out_current_read_offset, bytes_to_consume);
+        // For a stream gap the data pointer is NULL.
+        htp_status_t rc = htp_tx_res_process_body_data_ex(connp->out_tx,
+                (connp->out_current_data != NULL) ? connp->out_current_data + connp->out_current_read_offset : NULL, bytes_to_consume);
         if (rc != HTP_OK) return rc;
 
         // Adjust the counters.
